@@ -92,6 +92,7 @@ def run_workers(specs, builddir, flavour, workdir, timeout, maxpar=16):
                 p.wait()
             meta["rc"] = p.returncode
         meta["wall_s"] = time.time() - t0
+        meta["t_end"] = time.time()
         res = None
         if os.path.exists(spec["out"]):
             try:
@@ -202,12 +203,23 @@ def merge(outs, pid, inconclusive, mod):
         m["workers"] += 1
         if res is None:
             if meta["timeout"]:
-                if getattr(mod, "HANG_IS_VIOLATION", False):
-                    v = m["violations"].setdefault("hang|worker-timeout",
+                hb = None
+                try:
+                    raw = open(spec["out"] + ".hb", "rb").read().decode(
+                        errors="replace").strip()
+                    hb = json.loads(raw)
+                except Exception:
+                    hb = None
+                stuck = hb is not None and (meta["t_end"] - hb["t"]) > 120
+                if getattr(mod, "HANG_IS_VIOLATION", False) and stuck:
+                    # one single case has been running for > 120 s (normal cost:
+                    # microseconds): reported as a hang, with that case as witness
+                    v = m["violations"].setdefault("hang|case-did-not-terminate",
                                                    {"count": 0, "first": []})
                     v["count"] += 1
-                    v["first"].append({"pred": "terminates", "case": {"spec": spec},
-                                       "detail": tail(meta["stderr"])})
+                    v["first"].append({"pred": "terminates", "case": hb["case"],
+                                       "detail": {"running_for_s":
+                                                  meta["t_end"] - hb["t"]}})
                 else:
                     inconclusive.append(f"worker {spec['name']} watchdog fired")
             else:
